@@ -998,7 +998,7 @@ def run(ctx: fw.Ctx) -> int:
                 sw.run_state(state(cls, b))
     ctx.count('pairs', 'meta', len(md) * len(bodies))
     ctx.sample({'sweep': 'meta', 'decl': md[37], 'state_body': bodies[5]})
-    ctx.differential('meta', sw.header, sw.cases, shard=40)
+    ctx.differential('meta', sw.header, sw.cases, shard=80)
     sweeps = [sw]
 
     # malformed metadata: the raising paths, one handler at a time
@@ -1028,7 +1028,7 @@ def run(ctx: fw.Ctx) -> int:
         sw2.run_state(s)
     ctx.count('pairs', 'field', sum(len(sw2.by_cls.get(s['cls'], ())) for s in fs))
     ctx.sample({'sweep': 'field', 'decl': fd[20], 'state': fs[40]})
-    ctx.differential('field', sw2.header, sw2.cases, shard=60)
+    ctx.differential('field', sw2.header, sw2.cases, shard=160)
     # the same alphabet one handler at a time (a registry-level prematch is satisfied by any one handler)
     sd = fd if ctx.thorough else fd[::4]
     ss = [s for i, s in enumerate(fs) if i % (29 if ctx.thorough else 19) == 0 or s['cls'] != 'changing']
@@ -1041,7 +1041,7 @@ def run(ctx: fw.Ctx) -> int:
                 ctx.nontriv(['decl-varies', s_.name, d])
 
     # ---------- random larger registries ----------
-    n = ctx.scale(1500, 12000)
+    n = ctx.scale(700, 12000)
     rnd: list[fw.Case] = []
     for i in range(n):
         cls = r.choice(['changing', 'changing', 'changing', 'watching', 'spawning', 'indexing'])
